@@ -7,6 +7,7 @@ open Vx
 open Base
 open C12Model
 open C12Sidx
+open C12Bytes
 
 let kind_of_char c =
   match c with
@@ -164,4 +165,29 @@ let () =
           | r -> "decode-" ^ class_string r in
         if m = obs then Printf.printf "OK %s\n" id
         else Printf.printf "MISMATCH %s update_sidx_big model=%s\n" id m
+      | ["R"; id; fl; boxes; minfo; obs] ->
+        (* decode + File.Encode at byte level (C12Bytes): only moof boxes carry their bytes; every other box is
+           an opaque byte string that encodes to itself *)
+        let (bs, classes) = parse_boxes boxes in
+        let infos = Array.of_list (L.mapi (fun i s ->
+            if s = "-" then { bi_in = [n_of_int (i + 1000)]; bi_enc = [n_of_int (i + 1000)]; bi_doff = None }
+            else match split_on ':' s with
+              | [p; h] -> let b = bytes_of_hex h in
+                { bi_in = b; bi_enc = b; bi_doff = (if p = "-" then None else Some (n_of_hex p)) }
+              | _ -> failwith "bad moof info") (split_nonempty ';' (if minfo = "-" then "" else minfo))) in
+        let env t = infos.(int_of_n t) in
+        let m =
+          match assemble (opts_of fl) bs with
+          | Ok f ->
+            if not f.f_fragmented then "ok:" ^ S.concat "," (L.map (fun b -> string_of_int classes.(int_of_n b.b_tag)) f.f_children)
+            else
+            (match file_bytes env f, encode_segment_mode f with
+             | Ok bl, Ok boxes ->
+               "ok:" ^ S.concat "," (L.map2 (fun by b ->
+                   if by = (env b.b_tag).bi_in then string_of_int classes.(int_of_n b.b_tag)
+                   else "X:" ^ hex_of_bytes by) bl boxes)
+             | Err, _ | _, Err -> "err" | Panic, _ | _, Panic -> "panic" | _ -> "fuel")
+          | r -> "decode-" ^ class_string r in
+        if m = obs then Printf.printf "OK %s\n" id
+        else Printf.printf "MISMATCH %s reencode model=%s\n" id (if S.length m > 300 then S.sub m 0 300 else m)
       | _ -> Printf.printf "BADLINE %s\n" (if S.length line > 200 then S.sub line 0 200 else line))
